@@ -7,4 +7,5 @@
 //verif:include ../C07/jws_verify.go
 //verif:harness H_C01_jws_verify
 //verif:harness H_C01_jws_verify_fold
+//verif:harness H_C01_jws_verify_after
 package jws
